@@ -236,6 +236,19 @@ def run_shard(shard):
                 c = {'shard': dict(shard, blocks=['list', []]), 'cause': ('blades', 'raises', sorted(optset(opt)))}
                 metric = 'null-metric' if any(int(x) == 0 for x in base.signature) else 'non-null-metric'
                 res.violate(violation(f"blades:raises:{'+'.join(sorted(optset(opt)))}:{metric}", f'{name} [{on}] alg.blades.{nm} raises {type(e).__name__}: {e}', c, '', repr(e)))
+    # operands written as keyword blades in another order than the canonical one: construction (and a product) must succeed under
+    # every option setting that default options accept
+    if not shard.get('only'):
+        for ka in blocks:
+            if not (1 < len(ka) <= 6):
+                continue
+            res.evals += 1
+            va = values_for(ka, 2)
+            kw = {base.bin2canon[k]: v for k, v in reversed(list(zip(ka, va)))}
+            o0 = outcome(lambda: base.multivector(**kw) + base.multivector(**kw))
+            o1 = outcome(lambda: alg.multivector(**kw) + alg.multivector(**kw))
+            judge('keyword-construction', f'{ka} (keywords in reversed order)', o0, o1, {'shard': dict(shard, blocks=['list', [list(ka)]])})
+            res.evals -= 1
     for i, ka in enumerate(blocks):
         study = (0 in ka) and len({spaces.grade_of(k) for k in ka}) <= 2
         for op in UNARY:
